@@ -76,6 +76,8 @@ func (e *Engine) intrinsics() map[string]externalFn {
 		"internal/bytealg.IndexString":     extIndexString,
 		"internal/bytealg.Index":           extIndexBytes,
 		"internal/bytealg.Compare":         extCompare,
+		"internal/bytealg.CompareString":   extCompareString,
+		"strings.Compare":                  extCompareString,
 		"internal/bytealg.Equal":           extBytesEqual,
 		"internal/bytealg.MakeNoZero":      extMakeNoZero,
 		"internal/stringslite.Index":       nil, // interpreted
@@ -573,6 +575,15 @@ func extCompare(fr *frame, args []value) value {
 		return 1
 	}
 	return 0
+}
+
+func extCompareString(fr *frame, args []value) value {
+	if a, ok := args[0].(string); ok {
+		if b, ok := args[1].(string); ok {
+			return strings.Compare(a, b)
+		}
+	}
+	return extCompare(fr, []value{[]value(toSstr(args[0])), []value(toSstr(args[1]))})
 }
 
 func extBytesEqual(fr *frame, args []value) value {
